@@ -38,8 +38,17 @@ def encode_data(data, datatype, widths, big):
 def build_fcs(data, names=None, version='FCS3.0', datatype='D', byteord=None, widths=None, ranges=None,
               offsets_in='header', end_convention='last', pad_text=0, pad_data=0, extra=None, delim='/',
               mode='L', drop_keywords=(), amplification=None, gains=None, voltages=None, labels=None,
-              text_after_data=False, analysis=None, nextdata='0', tot=None, par=None):
-    """Returns the bytes of an FCS file. `data`: N rows x D numbers."""
+              text_after_data=False, analysis=None, nextdata='0', tot=None, par=None,
+              stext=None, stext_leading_delim=True, analysis_in='header', empty_data='legacy', trailer=b''):
+    """Returns the bytes of an FCS file. `data`: N rows x D numbers.
+
+    Later additions (defaults keep the earlier byte-for-byte output):
+    stext: list of pairs written as a supplemental TEXT segment after everything else ($BEGINSTEXT/$ENDSTEXT set,
+           fixed-width); stext_leading_delim=False omits its optional first delimiter.
+    analysis_in: 'header' (offsets only in HEADER), 'text' ($BEGINANALYSIS/$ENDANALYSIS only), 'both'.
+    empty_data: 'legacy' (N=0: end = begin / begin+1) or 'exact' (N=0: 'last' -> end = begin-1, 'onepast' -> end = begin).
+    trailer: bytes appended after the last segment (e.g. the optional 8-character CRC).
+    The info dict also carries 'pairs' (primary TEXT as rendered), 'stext_begin', 'stext_end', 'delim', 'length'."""
     data = [list(r) for r in data]
     N = len(data)
     D = len(data[0]) if N else (len(names) if names else (len(widths) if widths else 1))
@@ -53,7 +62,9 @@ def build_fcs(data, names=None, version='FCS3.0', datatype='D', byteord=None, wi
         byteord = '4,3,2,1'
     big = byteord in ('4,3,2,1', '2,1')
     databytes = encode_data(data, datatype, widths, big)
-    pairs = [('$BEGINANALYSIS', '0'), ('$ENDANALYSIS', '0'), ('$BEGINSTEXT', '0'), ('$ENDSTEXT', '0'),
+    an_text = bool(analysis) and analysis_in in ('text', 'both')
+    pairs = [('$BEGINANALYSIS', '%BA%' if an_text else '0'), ('$ENDANALYSIS', '%EA%' if an_text else '0'),
+             ('$BEGINSTEXT', '%BS%' if stext else '0'), ('$ENDSTEXT', '%ES%' if stext else '0'),
              ('$BEGINDATA', '%BD%'), ('$ENDDATA', '%ED%'),
              ('$BYTEORD', byteord), ('$DATATYPE', datatype), ('$MODE', mode), ('$NEXTDATA', nextdata),
              ('$PAR', str(D if par is None else par)), ('$TOT', str(N if tot is None else tot))]
@@ -76,9 +87,12 @@ def build_fcs(data, names=None, version='FCS3.0', datatype='D', byteord=None, wi
         pairs.append((k, v))
     pairs = [(k, v) for (k, v) in pairs if k not in drop_keywords]
     # fixed-width offsets so that the text length does not depend on them
-    def render(bd, ed):
-        ps = [(k, (('%010d' % bd) if v == '%BD%' else ('%010d' % ed) if v == '%ED%' else v)) for k, v in pairs]
-        return encode_text(ps, delim).encode('latin-1')
+    def render_pairs(bd, ed, ba=0, ea=0, bs=0, es=0):
+        sub = {'%BD%': bd, '%ED%': ed, '%BA%': ba, '%EA%': ea, '%BS%': bs, '%ES%': es}
+        return [(k, ('%010d' % sub[v]) if v in sub else v) for k, v in pairs]
+
+    def render(bd, ed, ba=0, ea=0, bs=0, es=0):
+        return encode_text(render_pairs(bd, ed, ba, ea, bs, es), delim).encode('latin-1')
     text0 = render(0, 0)
     header_len = 58
     analysis_bytes = encode_text(analysis, delim).encode('latin-1') if analysis else b''
@@ -92,11 +106,9 @@ def build_fcs(data, names=None, version='FCS3.0', datatype='D', byteord=None, wi
         data_end_last = data_begin + len(databytes) - 1
         text_begin = data_end_last + 1 + pad_data
         text_end = text_begin + len(text0) - 1
-    if len(databytes) == 0:
+    if len(databytes) == 0 and empty_data == 'legacy':
         data_end_last = data_begin      # empty DATA: offsets cannot describe zero bytes; callers avoid N=0 with 'last'
     data_end = data_end_last if end_convention == 'last' else data_end_last + 1
-    text = render(data_begin, data_end)
-    assert len(text) == len(text0)
     if offsets_in == 'header':
         hb, he = data_begin, data_end
     else:
@@ -108,9 +120,21 @@ def build_fcs(data, names=None, version='FCS3.0', datatype='D', byteord=None, wi
     if analysis_bytes:
         an_b = body_end + 1 + pad_data
         an_e = an_b + len(analysis_bytes) - 1
-    header = ('%-10s%8d%8d%8d%8d%8d%8d' % (version, text_begin, text_end, hb, he, an_b, an_e)).encode('latin-1')
+    st_b = st_e = 0
+    stext_bytes = b''
+    if stext:
+        stext_bytes = encode_text(stext, delim).encode('latin-1')
+        if not stext_leading_delim:
+            stext_bytes = stext_bytes[1:]
+        st_b = max(body_end, an_e) + 1 + pad_data
+        st_e = st_b + len(stext_bytes) - 1
+    text = render(data_begin, data_end, an_b, an_e, st_b, st_e)
+    assert len(text) == len(text0)
+    rendered_pairs = render_pairs(data_begin, data_end, an_b, an_e, st_b, st_e)
+    h_an_b, h_an_e = (an_b, an_e) if analysis_in in ('header', 'both') else (0, 0)
+    header = ('%-10s%8d%8d%8d%8d%8d%8d' % (version, text_begin, text_end, hb, he, h_an_b, h_an_e)).encode('latin-1')
     assert len(header) == 58
-    total = max(text_end, data_end_last if len(databytes) else 0, an_e) + 1
+    total = max(text_end, data_end_last if len(databytes) else 0, an_e, st_e) + 1
     buf = bytearray(b' ' * total)
     buf[0:58] = header
     buf[text_begin:text_end + 1] = text
@@ -118,9 +142,13 @@ def build_fcs(data, names=None, version='FCS3.0', datatype='D', byteord=None, wi
         buf[data_begin:data_begin + len(databytes)] = databytes
     if analysis_bytes:
         buf[an_b:an_e + 1] = analysis_bytes
+    if stext_bytes:
+        buf[st_b:st_e + 1] = stext_bytes
+    buf += bytes(trailer)
     return bytes(buf), {'text_begin': text_begin, 'text_end': text_end, 'data_begin': data_begin,
                         'data_end': data_end, 'N': N, 'D': D, 'widths': widths, 'big': big,
-                        'analysis_begin': an_b, 'analysis_end': an_e}
+                        'analysis_begin': an_b, 'analysis_end': an_e, 'stext_begin': st_b, 'stext_end': st_e,
+                        'pairs': rendered_pairs, 'delim': delim, 'length': len(buf), 'data_nbytes': len(databytes)}
 
 
 def write_fcs(path, data, **kw):
